@@ -225,6 +225,16 @@ func (p *c19) build(seed uint64, tier string) []C19Scenario {
 					s.Client.Pass = "wrong-password"
 					add(s)
 				}
+				// the n-th SetDeadline on the connection fails (nothing else is wrong with it)
+				for n := 1; n <= 6; n++ {
+					if tier != "thorough" && (idx+n)%2 != 0 {
+						continue
+					}
+					s := base()
+					s.Step = fmt.Sprintf("setdeadline-fails#%d", n)
+					s.Conn = sim.ConnFaults{SetDeadlineFailNth: n}
+					add(s)
+				}
 				// the caller cancels its context (it does not expire) at some instant after the
 				// connection was made, while every reply of the server is positive
 				for _, us := range []int{150, 400, 800, 1500, 2500} {
